@@ -35,6 +35,23 @@ class ClassWorld:
                     self.genv[q] = FunctionValue(f, self.ev, self.genv)
         for name in self.classes:
             self.genv[name] = self._ctor(name)
+        self.genv.setdefault("Op", Tag("Op"))
+        if "Op" in self.classes:
+            self.genv["Op"] = Tag("Op")
+        # module-level constants (tables, strings, numbers) are evaluated; anything else stays an opaque tag
+        for m in modules:
+            for st in m.tree.body:
+                if isinstance(st, (ast.Assign, ast.AnnAssign)) and getattr(st, "value", None) is not None:
+                    tgts = st.targets if isinstance(st, ast.Assign) else [st.target]
+                    if not isinstance(st.value, (ast.Dict, ast.List, ast.Tuple, ast.Constant, ast.BinOp, ast.Set)):
+                        continue
+                    try:
+                        v = self.ev.eval(st.value, self.genv)
+                    except (Undecided, Exception):
+                        continue
+                    for t in tgts:
+                        if isinstance(t, ast.Name):
+                            self.genv[t.id] = v
         for exc in ("TypeError", "ValueError", "IndexError", "KeyError", "RuntimeError", "NotImplementedError"):
             self.genv[exc] = (lambda exc: lambda *a: Tag(exc))(exc)
 
